@@ -913,14 +913,10 @@ class PCE500Emulator:
                     f"pending IRQ check pc=0x{self.cpu.regs.get(RegisterName.PC):06X} "
                     f"imr=0x{imr_val_chk:02X} isr=0x{isr_val_chk:02X} in_interrupt={self._in_interrupt}"
                 )
+                # IRM gates every source, KEY/ONK included: a request raised while
+                # IRM is clear stays pending (``_irq_pending`` is retained below) and
+                # is delivered once firmware sets IRM, matching the Rust runtime.
                 irm_enabled = (imr_val_chk & int(IMRFlag.IRM)) != 0
-                # If a level-triggered KEY/ONK request is pending while IRM is
-                # still masked, treat IRM as enabled so the event is not lost
-                # before the ROM flips IMR into its runtime state.
-                if not irm_enabled and (
-                    isr_val_chk & (int(ISRFlag.KEYI) | int(ISRFlag.ONKI))
-                ):
-                    irm_enabled = True
 
                 if not irm_enabled or (imr_val_chk & isr_val_chk) == 0:
                     # Keep pending; CPU continues executing normal flow
